@@ -128,6 +128,19 @@ def wrapper_properties(ctx):
     return out
 
 
+def aliases_at(ctx, node) -> dict:
+    """local aliases of storage (``x = self.A[i]``) of the State method that contains ``node``"""
+    from .effects import local_aliases
+    cache = ctx.__dict__.setdefault('_alias_cache', {})
+    for name, fi in ctx.state.methods.items():
+        if name not in cache:
+            cache[name] = (set(map(id, ast.walk(fi.node))), local_aliases(fi.node))
+        ids, al = cache[name]
+        if id(node) in ids:
+            return al
+    return {}
+
+
 def loop_body_mod(ctx, node) -> set:
     """attributes a loop body may modify (direct writes + MOD* of self calls)"""
     eff = ctx.eff
@@ -139,6 +152,7 @@ def loop_body_mod(ctx, node) -> set:
         if a is not None and a in eff.methods and ctx.state.methods[a].is_property:
             mod |= eff.mod.get(a, set())
     from .effects import local_aliases, storage_roots, MUTATORS
+    al = aliases_at(ctx, node)
     for n in ast.walk(node):
         tg = []
         if isinstance(n, ast.Assign):
@@ -146,9 +160,9 @@ def loop_body_mod(ctx, node) -> set:
         elif isinstance(n, (ast.AugAssign, ast.AnnAssign)):
             tg = [n.target]
         for t in tg:
-            mod |= storage_roots(t, {}) if not isinstance(t, ast.Name) else set()
+            mod |= storage_roots(t, al) if not isinstance(t, ast.Name) else set()
         if isinstance(n, ast.Call) and isinstance(n.func, ast.Attribute) and n.func.attr in MUTATORS:
-            mod |= storage_roots(n.func.value, {})
+            mod |= storage_roots(n.func.value, al)
     return mod
 
 
